@@ -57,6 +57,8 @@ def layer (head : String) (args : List Sexp) : Option ((Stream → Stream) × (S
   | "dematerialize", [] => some (dematerialize, k kDematerialize)
   | "map_to_any", [] => some (identity, k kId)
   | "tap", [_] => some (identity, k kId)
+  | "timestamp", [] => some (identity, k kId)
+  | "time_interval", [] => some (timeInterval, k kTimeInterval)
   | _, _ => none
 
 /-- (spec stream, kernel-chain stream) of a pipeline in the fragment -/
